@@ -12,7 +12,8 @@ R3 TWO-EARLIER: the repetition `return true` is reachable only through two equal
 R4 LIST-DISCIPLINE: an entry is pushed for the start position and after every MakeMove; the board
    is advanced with make_move_new; the list is cleared only under irreversible events (pawn move,
    capture, castling-rights change).
-R5 DECLARE: declare_draw pushes DeclareDraw iff can_declare_draw()."""
+R5 DECLARE: declare_draw pushes DeclareDraw iff can_declare_draw().
+R6 OPEN-GAME: every `true` of can_declare_draw is behind "the game has no result" (the clause C10.R1 also holds it to)."""
 from .common import *
 
 LEVEL = 'other'
@@ -199,6 +200,10 @@ def count_idiom(ctx, s, true_blk):
 
 
 def run(ctx):
+    # R6 OPEN-GAME (= the can_declare_draw clause of C10.R1): no `true` is returned once the game has a result
+    from . import c10
+    c10._CTX[0] = ctx
+    c10.cdd_gate(ctx, 'C11.R6')
     s = summary(ctx, KEY, 'C11.R1')
     if s is None:
         return
